@@ -575,6 +575,9 @@ def value_strategy(spec, small=False):
             grid,
             st.floats(min_value=-1e6, max_value=1e6, allow_nan=False,
                       allow_subnormal=False).filter(lambda x: abs(x) < 1e6),
+            st.floats(allow_nan=False, allow_infinity=False,
+                      allow_subnormal=False),
+            st.integers(-2 ** 80, 2 ** 80),
             st.sampled_from([359.9, -0.1, 359.3, 359.296875, 359.2968751,
                              719.99, 0.0, 360.0, -360.0, 180.0, 1.40625 / 2,
                              -1e-9, 1e-9, 358.6, 999999.99]))
@@ -725,7 +728,11 @@ def t_boundaries(ctx):
                               -0.99 / 32, 12.345],
         'Angle': [0.0, 359.9, -0.1, 359.99999, 359.296875, 359.2968751,
                   359.3, 360.0, 720.0, -360.0, 47.12947238973, -108.7,
-                  999999.999, -999999.999, 1e-12, -1e-12],
+                  999999.999, -999999.999, 1e-12, -1e-12,
+                  # any finite magnitude is an angle (exact rational oracle)
+                  1e16 + 90, 1e18, -1e18, 12345678901234567.0, 2.0 ** 60 + 512,
+                  3.4028234663852886e+38, -3.4028234663852886e+38, 1e300,
+                  10 ** 19 + 90, -(10 ** 19) - 90, 2 ** 70 + 45],
         'Short': [], 'Byte': [],
     }
     for spec, vals in sorted(B.items()):
